@@ -2,6 +2,7 @@ import Lemmas.Allocate
 import Lemmas.SpecConserve
 import Lemmas.Portions
 import Lemmas.SpecFloor
+import Lemmas.NumLift
 /-! C03 — a send moves exactly what it says.  Part 1: the funding algebra (`internal/machine/funding.go`,
 `allotment.go`) that every send is built from.  Part 2 (second half of this file): the same facts lifted through
 the source-level semantics `Spec` (`evalSource`, `takeFromSource`, `evalDest`, `evalSend`, `run`): `send_exact`,
@@ -289,5 +290,21 @@ example : resolvePortions [] [.const ⟨1, 3⟩, .remaining] = .ok [⟨1, 3⟩, 
 destination = @b)` on a state that tracks `(a, EUR)` moves 12 EUR (the real VM does the same) -/
 example : ∃ st', evalSend [] (.all (.asset "USD")) (.src (.acct (.acct "a") (.upTo (.mon (.asset "EUR") 5))))
       (.acct (.acct "b")) ⟨⟨fun _ _ => some 7⟩, []⟩ = .ok st' ∧ st'.postings = [⟨"a", "b", 12, "EUR"⟩] := ⟨_, rfl, rfl⟩
+
+/-! #### the compiled program: lift through compiler correctness (`Num.run_eq` = `C08.compile_correct`) -/
+
+/-- whatever holds of the postings of every accepted `Spec` run holds of the postings the bytecode VM model emits for the
+compiled program (the statement-level theorems above are about `evalSend`/`evalStmts`, the functions `Spec.run` folds) -/
+theorem postings_fact_compiled {P : Script} {prog : Program} (hc : compile P = .ok prog) (hwf : P.frag2)
+    {req : Request} {store : Store} (Q : List Posting → Prop)
+    (hQ : ∀ r', run P req store = .ok r' → Q r'.postings) {r : VM.Result} (h : VM.run prog req store = .ok r) :
+    Q r.postings := by
+  obtain ⟨r', h1, h2⟩ := vm_ok_postings hc hwf req store h
+  exact h2 ▸ hQ r' h1
+
+/-- … for instance: the compiled program never emits a negative posting -/
+theorem postings_nonneg_compiled {P : Script} {prog : Program} (hc : compile P = .ok prog) (hwf : P.frag2)
+    {req : Request} {store : Store} {r : VM.Result} (h : VM.run prog req store = .ok r) : ∀ p ∈ r.postings, 0 ≤ p.amt :=
+  postings_fact_compiled hc hwf (fun ps => ∀ p ∈ ps, 0 ≤ p.amt) (fun _ h' => postings_nonneg h') h
 
 end C03
